@@ -7,8 +7,7 @@ solution built from `m` moments.  Core Lean only.
 namespace Pyma
 namespace Kpm
 
-/-- what the call returns: the number of moments of the returned solution (`none`: `sol` was never assigned — the Python code raises
-`UnboundLocalError`), and whether the convergence warning was issued -/
+/-- what the call returns: the number of moments of the returned solution (`none`: no solution was computed — cannot happen, `greens_spec`), and whether the convergence warning was issued -/
 structure Result where
   moments : Option Nat
   warned : Bool
@@ -25,8 +24,8 @@ def loop (resid : Nat → Rat) (atol : Rat) (maxM : Nat) : Nat → Nat → Optio
             if resid m > atol then loop resid atol maxM fuel (4 * m) (some m)
             else ⟨some m, false⟩
 
-/-- `greens_function` with the code's starting value `num_moments = 10` -/
-def greens (resid : Nat → Rat) (atol : Rat) (maxM : Nat) (fuel : Nat) : Result := loop resid atol maxM fuel 10 none
+/-- `greens_function` with the code's starting value `num_moments = min(10, max_moments)` -/
+def greens (resid : Nat → Rat) (atol : Rat) (maxM : Nat) (fuel : Nat) : Result := loop resid atol maxM fuel (min 10 maxM) none
 
 end Kpm
 end Pyma
